@@ -121,7 +121,7 @@ def classify_cases(d, meta, idxs, classifier):
     lines = ["From VV.M1 Require Import Corr Known."]
     shards = sorted({inv[i] // per for i in idxs if i in inv})
     for s in shards:
-        lines.append("Require cases_m1_%03d." % s)
+        lines.append("From Cases Require cases_m1_%03d." % s)
     order = []
     for i in idxs:
         if i not in inv:
@@ -131,7 +131,7 @@ def classify_cases(d, meta, idxs, classifier):
         lines.append("Eval vm_compute in match nth_error cases_m1_%03d.cases %d with Some c => %s c | None => false end." % (k // per, k % per, classifier))
     f = os.path.join(d, "classify_%s.v" % classifier)
     open(f, "w").write("\n".join(lines) + "\n")
-    rc, out, _ = vflib.sh(["timeout", "900", "coqc", "-noglob"] + vflib.q_flags("m1") + ["-Q", d, "Top", f], cwd=d, timeout=960)
+    rc, out, _ = vflib.sh(["timeout", "900", "coqc", "-noglob"] + vflib.q_flags("m1") + ["-Q", d, "Cases", f], cwd=d, timeout=960)
     if rc != 0:
         return None
     vals = [b.strip() == "true" for b in vflib.parse_eval_outputs(out)]
